@@ -13,6 +13,8 @@ the Warshall oracle of vp/graphs.py on that model.
   ['scc_partial', k]     compute_SCCs, only the first k components consumed, generator dropped
   ['scc_of', kind, xs]   compute_SCCs of a derived graph: 'reverse' | 'clone' | 'subgraph' (of xs)
   ['reach', xs]          get_reachable_set_from(xs)
+  ['reach_next', v]      get_reachable_set_from(G.next(v)): X is a set the graph itself handed out
+  ['scc_nested']         two decompositions alive at once: for c1 in compute_SCCs(G): for c2 in compute_SCCs(G)
   ['reverse']            get_reversed_graph()
   ['subgraph', xs]       get_subgraph(xs)
   ['clone']              clone(): equal now
@@ -129,7 +131,7 @@ def _scc_problem(comps, m, nm, nodes=None, edges=None):
     return None
 
 
-OPS = ('node', 'edge', 'scc', 'scc_partial', 'scc_of', 'reach', 'reverse', 'subgraph', 'clone', 'fork',
+OPS = ('node', 'edge', 'scc', 'scc_partial', 'scc_of', 'reach', 'reach_next', 'scc_nested', 'reverse', 'subgraph', 'clone', 'fork',
        'fork_sub', 'fork_rev', 'back')
 
 
@@ -206,6 +208,30 @@ def run(inp):
                 if tamper and isinstance(got, set):
                     got.add('junk')
                     got.clear()
+            elif o == 'reach_next':
+                if op[1] in m.nodes:
+                    X = g.next(nm(op[1]))
+                    got = g.get_reachable_set_from(X)
+                    want = set(nm(i) for i in m.reach([b for (a, b) in m.edges if a == op[1]]))
+                    if set(got) != want:
+                        return (k, 'get_reachable_set_from(G.next(%r))' % (nm(op[1]),), sorted(map(repr, want)), sorted(map(repr, got)))
+                    if tamper and isinstance(got, set):
+                        # the result is the caller's: whatever it does with it, the graph stays what it was
+                        got.add('junk')
+                        got.discard(nm(op[1]))
+                        got.clear()
+            elif o == 'scc_nested':
+                outer = []
+                for c1 in compute_SCCs(g):
+                    outer.append(list(c1))
+                    p = _scc_problem(compute_SCCs(g), m, nm)
+                    if p:
+                        return (k, 'a decomposition started while another one is being read: ' + p[0]) + p[1:]
+                    if len(outer) >= 3:
+                        pass
+                p = _scc_problem(outer, m, nm)
+                if p:
+                    return (k, 'a decomposition read while others were started and finished: ' + p[0]) + p[1:]
             elif o == 'reverse':
                 r = g.get_reversed_graph()
                 rm = Model()
@@ -347,6 +373,8 @@ def st_history(queries, max_nodes=7, max_ops=40):
                 ops.append([q, kd, draw(subs) if kd == 'subgraph' else []])
             elif q in ('reach', 'subgraph'):
                 ops.append([q, draw(subs)])
+            elif q == 'reach_next':
+                ops.append([q, draw(hs.integers(0, n - 1))])
             elif q == 'fork':
                 kd = draw(hs.sampled_from(['fork', 'fork_sub', 'fork_rev', 'back', 'back']))
                 if kd == 'fork':
